@@ -56,6 +56,8 @@ struct Stats {
     int natural_errno;     // errno of the first such failure
     long bytes;            // bytes accepted by write() on the output so far
     long max_write_len;    // longest single write() request seen
+    int released_fd;       // 1 + descriptor number of the output after it was given back to the kernel by close() (0: none)
+    int n_close_released;  // close() calls on that number while nobody owned it (EBADF): the library closed a descriptor it had released
 };
 
 static Plan g_plan;
@@ -167,9 +169,17 @@ int fsync(int fd) {
 int close(int fd) {
     using namespace c08f;
     static const auto fn = real<int (*)(int)>("close");
-    if (!is_target(fd)) return fn(fd);
+    if (!is_target(fd)) {
+        // A second close() of the number the output descriptor had: if nothing owns the number now (fstat says EBADF) the library is
+        // closing a descriptor it has already released - between the two calls any open() of another thread may have received that
+        // number, and the stray close then takes away a file the Writer does not own.
+        struct stat st;
+        if (g_armed && g_stats && fd >= 0 && fd == g_stats->released_fd - 1 && fstat(fd, &st) != 0 && errno == EBADF) { bump(g_stats->n_close_released); g_stats->released_fd = 0; }
+        return fn(fd);
+    }
     Stats* s = g_stats;
     const int idx = bump(s->n_close);
+    s->released_fd = fd + 1;      // (stored + 1 so that the zero-initialised value means "none")
     if (g_plan.kind == CLOSE_NTH && idx == g_plan.n) { fn(fd); bump(s->injected); errno = g_plan.err; return -1; }
     const int r = fn(fd);
     if (r != 0) { const int e = errno; note_natural(e); errno = e; }
